@@ -16,6 +16,10 @@ impl Exec {
         verif_clock::enable(T0_NS + case_no * 3_600_000_000_000);
         Exec { case_no }
     }
+    /// no reset: several threads of one scenario share the rule managers
+    pub fn attach(case_no: u64) -> Self {
+        Exec { case_no }
+    }
     fn res(&self, r: &str) -> String {
         if r.is_empty() {
             String::new()
